@@ -53,6 +53,7 @@ let string_of_value = function
 
 let string_of_err = function
   | None -> "-" | Some DecStream.EEOF -> "EOF" | Some DecStream.EInvalidUTF8 -> "UTF8"
+  | Some DecStream.ENegLen -> "other:hprose/io:_negative_length"
 
 let string_of_site = function
   | DecStream.PIndex -> "index" | DecStream.PNextNeg -> "next-neg" | DecStream.PNextMake -> "next-make" | DecStream.PSlice -> "slice"
